@@ -9,6 +9,9 @@ Correspondence (harness sqlinject): the real planners are driven with hostile st
 at a time; the SQL they hand to the session is lexed by model/ChLex.v inside Coq and compared with the
 SQL for a harmless marker in the same position (token skeleton equal, literals = baseline literals with
 the marker replaced by the intended bytes, model-predicted literal text present).
+Tree level (run_tree_tie): the LogQL requests of those cases are planned by the extracted model/LogqlPlan.v and rendered
+into the segmented text of model/SqlPieces.v; flat(pieces) = the real planner's SQL byte for byte, and pok holds, so
+theorems rendered_statement_tokens / request_values_keep_statement_structure apply to the very trees the planners build.
 """
 import hashlib
 import json
@@ -170,6 +173,7 @@ def run_correspondence(ck, known):
             if any(ch in v for ch in b"'\\\x00\n\r\x08\t\x1a%_-/*#") or any(ch >= 0x80 for ch in v):
                 distinct.add(c["site"] + "|" + c["val"])
     ck.obligation("every site has a baseline statement", nbad_base == 0, "%d cases without baseline" % nbad_base)
+    run_tree_tie(ck, list(by_id.values()), "gen+corpus")
 
     mism = sorted(i for i, v in verd_all.items() if v in (7, 8, 10))
     viol = sorted(i for i, v in verd_all.items() if v in (1, 2, 4, 5))
@@ -204,6 +208,142 @@ def run_correspondence(ck, known):
     ck.add_samples([{"site": c["site"], "value": bytes.fromhex(c["val"]).decode("utf8", "backslashreplace"),
                      "statement_excerpt": around(c)} for c in samples])
 
+
+
+# ---------------------------------------------------------------------- tree-level tie (theorems through SqlRender.v)
+LOGQL_CTX = {"from_ns": 1700000000 * 10**9, "to_ns": 1700003600 * 10**9, "limit": 100, "asc": False, "cluster": False,
+             "type": 1, "finalize": True, "step_ms": 1000}
+# model/LogqlPlan.v returns None for a pipeline with line_format ("LineFormatPlanner: not transcribed yet", C08's model)
+NOT_PLANNED_BY_MODEL = {"logql.lineformat.direct"}
+SPECIAL = b"'\\\x00\n\r\x08\t\x1a"
+
+
+def like_escape(b):
+    out = bytearray()
+    for ch in b:
+        if ch in b"\\%_":
+            out.append(0x5c)
+        out.append(ch)
+    return bytes(out)
+
+
+def run_tree_tie(ck, sq_cases, tag):
+    """The LogQL requests of the sqlinject cases are planned again by harness logqlsql (real parser + real
+    clickhouse_planner, AST dumped as a term of model/Logql.v); the extracted model plans the same AST
+    (model/LogqlPlan.v), renders the tree into the SEGMENTED text of model/SqlPieces.v and evaluates pok on it.
+    Obligations: flat(pieces) = the real planner's SQL byte for byte; pok holds (so theorems rendered_statement_tokens /
+    request_values_keep_statement_structure apply to this very tree); no hostile value occurs in a text piece."""
+    reqs = [c for c in sq_cases if c.get("logql")]
+    if not reqs:
+        return
+    ok, out = ck.coq_make(["model/SqlPiecesCases.vo"])
+    if not ck.obligation("model/SqlPiecesCases.v builds", ok, out[-1500:]):
+        return
+    if not ck.go_build("logqlsql"):
+        ck.obligation("harness logqlsql builds against the repository", False, ck.build_out[-1500:])
+        return
+    inp = os.path.join(ck.work, "tree_%s_in.jsonl" % tag)
+    with open(inp, "w") as f:
+        for i, c in enumerate(reqs):
+            ctx = dict(LOGQL_CTX)
+            ctx["cluster"] = bool(c.get("cluster"))
+            f.write(json.dumps({"id": i, "query": bytes.fromhex(c["logql"]).decode("utf8", "surrogateescape"),
+                                "ctx": ctx, "runs": 1, "metric": True, "class": [c["site"]]}, ensure_ascii=False) .encode("utf8", "surrogateescape").decode("latin1") + "\n")
+    outp = os.path.join(ck.work, "tree_%s_out.jsonl" % tag)
+    rc, out = ck.go_run("logqlsql", ["--cases", inp, "--out", outp])
+    if rc != 0:
+        ck.obligation("harness logqlsql ran the LogQL requests of the sqlinject cases", False, out[-1500:])
+        return
+    planned = [json.loads(l) for l in open(outp)]
+    usable = [c for c in planned if (c.get("ast_ml") or c.get("script_ml")) and not c.get("err") and c.get("sql")]
+    skipped = {}
+    for c in planned:
+        if c not in usable:
+            skipped[c.get("err") or "no-ast"] = skipped.get(c.get("err") or "no-ast", 0) + 1
+
+    def ml(c, key):
+        return "(%d, %s, true, %s, 1)" % (c["id"], c[key], c["ctx_ml"])
+    lc = [ml(c, "ast_ml") for c in usable if c.get("ast_ml")]
+    mc = [ml(c, "script_ml") for c in usable if not c.get("ast_ml")]
+
+    def chunks(name, rows):
+        parts = []
+        for k in range(0, len(rows), 40):
+            parts.append("let %s%d = [\n " % (name, k // 40) + ";\n ".join(rows[k:k + 40]) + "]\n")
+        return "".join(parts) + "let %s = List.concat [%s]\n" % (name, "; ".join("%s%d" % (name, i) for i in range(len(parts))))
+    txt = chunks("lcases", lc) + chunks("mcases", mc)
+    rc, out = ck.ocaml_eval("c10tree_" + tag, "ExtractC10.v", "c10pieces", txt, "c10_driver.ml")
+    if rc != 0:
+        ck.obligation("tree-level cases evaluated by the extracted planner + segmented renderer", False, out[-2000:])
+        return
+    res = {}
+    for ln in out.splitlines():
+        parts = ln.split(" ")
+        if parts and parts[0].lstrip("-").isdigit():
+            res[int(parts[0])] = parts[1:]
+    mism, notok, leaked, nstmt, located, npieces, nvals, unmodelled = [], [], [], 0, 0, 0, 0, 0
+    by_site = {}
+    for c in usable:
+        rq = reqs[c["id"]]
+        want = bytes.fromhex(rq["want"]) if rq.get("want") else b""
+        obs = [s.encode("utf8", "surrogateescape") for s in c["sql"]]
+        got = res.get(c["id"])
+        if got is not None and all(g == "-" for g in got) and rq["site"] in NOT_PLANNED_BY_MODEL:
+            unmodelled += 1
+            continue
+        if got is None or len(got) != len(obs) or any(g == "-" for g in got):
+            mism.append((c, "model has no statement"))
+            continue
+        found = False
+        for g, o in zip(got, obs):
+            okf, same, flat, pcs = g.split("/")
+            nstmt += 1
+            if bytes.fromhex(flat) != o or same != "1":
+                mism.append((c, "flat(pieces) differs from the planner's SQL"))
+                break
+            if okf != "1":
+                notok.append(c)
+            for pc in pcs.split(","):
+                if not pc:
+                    continue
+                npieces += 1
+                body = bytes.fromhex(pc[1:])
+                if pc[0] == "L":
+                    nvals += 1
+                    if want and (want in body or like_escape(want) in body):
+                        found = True
+                elif pc[0] == "Q":
+                    if want and want == body:
+                        found = True
+                elif len(want) >= 3 and any(ch in want for ch in SPECIAL) and want in body and ".ident." not in rq["site"]:
+                    leaked.append((c, body))
+        located += 1 if found else 0
+        bs = by_site.setdefault(rq["site"], [0, 0])
+        bs[0] += 1
+        bs[1] += 1 if found else 0
+    n = len(usable) - unmodelled
+    ck.obligation("tree-level correspondence (%s): flat(pieces(plan ast)) = SQL of the real LogQL planner, byte for byte, on %d requests / %d statements" % (tag, n, nstmt),
+                  not mism, "; ".join("%s => %s" % (c["query"][:120], why) for c, why in mism[:3]))
+    ck.obligation("every planned tree passes pok (%s): theorem request_values_keep_statement_structure applies to it (%d statements)" % (tag, nstmt),
+                  not notok, "; ".join(c["query"][:160] for c in notok[:3]))
+    ck.obligation("no hostile request string occurs in a text piece of a planned tree (%s)" % tag, not leaked,
+                  "; ".join("%s in %r" % (c["query"][:120], b[:80]) for c, b in leaked[:3]))
+    if notok or leaked:
+        c = (notok or [x for x, _ in leaked])[0]
+        rq = reqs[c["id"]]
+        ck.violation({"property": "C10", "kind": "the segmented text of the planned tree fails the value-independent check pok, or carries request bytes in a text piece "
+                      "(model/SqlPieces.v): the statement structure is not guaranteed for this request",
+                      "case": describe(rq), "logql": c["query"]})
+    elif mism:
+        c, why = mism[0]
+        ck.violation({"property": "C10", "kind": why, "logql": c["query"], "case": describe(reqs[c["id"]]),
+                      "broken": "correspondence model/LogqlPlan.v + model/SqlPieces.v vs clickhouse_planner"}, no_input=True)
+    t = ck.extra.setdefault("tree_level_tie", {})
+    t[tag] = {"logql_requests": len(reqs), "planned_by_model_and_code": n, "statements": nstmt, "pieces": npieces, "value_pieces": nvals,
+              "requests_whose_value_is_located_in_a_value_piece": located, "skipped": skipped,
+              "stage_not_transcribed_in_LogqlPlan_v": unmodelled,
+              "per_site_[requests,value_located_in_a_value_piece]": by_site}
+    ck.coverage["evaluations"] += nstmt
 
 def run_sites(ck):
     """translator-generated obligations, with named diagnostics before the theorems are compiled"""
@@ -279,6 +419,7 @@ def run_replay(ck):
             ck.obligation("replay evaluated inside Coq", False, out[-1500:])
             return
     ck.coverage["evaluations"] += len(cases)
+    run_tree_tie(ck, cases, "replay")
     ck.obligation("replayed input %r at %s keeps the statement structure" % (bytes.fromhex(c["val"]), c["site"]), not verd,
                   "; ".join(CODE.get(v, str(v)) for v in verd.values()))
     for cs in cases:
